@@ -98,8 +98,23 @@ Uninstall(sc) ==
      /\ Log([a |-> "uninstall", sc |-> sc, force |-> FALSE, skip |-> FALSE, conflict |-> FALSE,
              cfgAllowed |-> cfgAllowed, hookAllowed |-> hookAllowed])
 
+\* Other commands install the hooks on their way (commands.installHooks(false) in track, untrack, clean,
+\* smudge, filter-process, fsck, migrate import, clone): the same rule as update without --force, except
+\* that nobody is told about a conflict - the command goes on with its own business.
+ImplicitCmds == {"track", "untrack", "clean", "fsck"}
+Implicit(cmd) ==
+  LET hconf == HookConflict(hook)
+      hookAllowed == [x \in Hooks |-> IF hook[x] \in UserOwned THEN {hook[x]}
+                                      ELSE IF hconf THEN {hook[x], "current"} ELSE {"current"}]
+  IN /\ cmd \in ImplicitCmds
+     /\ hook' = [x \in Hooks |-> HookAfterInstall(hook[x], FALSE)]
+     /\ UNCHANGED cfg
+     /\ Log([a |-> "implicit", cmd |-> cmd, sc |-> "global", force |-> FALSE, skip |-> FALSE, conflict |-> FALSE,
+             cfgAllowed |-> [s \in Scopes |-> [k \in Keys |-> {cfg[s][k]}]], hookAllowed |-> hookAllowed])
+
 Next == \/ \E sc \in Scopes : (\E f, s \in BOOLEAN : Install(sc, f, s)) \/ Uninstall(sc)
         \/ \E f \in BOOLEAN : Update(f)
+        \/ \E cmd \in ImplicitCmds : Implicit(cmd)
 Spec == Init /\ [][Next]_vars
 
 \* ---- the property on the design ------------------------------------------------
